@@ -210,6 +210,39 @@ def run_arch(ck, arch, prop):
                         break
             elif len(ck.samples) < 4 and i % 997 == 0:
                 ck.sample({"arch": arch, "source": t, "bytes": r.bytes.hex(), "decoded": dec_out.get(i)})
+    # ---------------------------------------------------------------- O: acceptance must be exactly the field's range
+    groups = {}
+    for j, (f, k, v, later, src) in enumerate(sweeps):
+        groups.setdefault((f, k, later), []).append((v, impl[nprog + j], j))
+    for (f, k, later), items in groups.items():
+        mn = f.split()[0]
+        acc = [v for v, r, _ in items if r.ok]
+        if not acc:
+            continue
+        if mn in REL_MN:
+            lo, hi = ORG + 2 - 128, ORG + 2 + 127
+        elif mn == "ldh":
+            continue
+        elif any(v > 255 for v in acc):
+            lo, hi = 0, 65535
+        elif any(v > 127 for v in acc):
+            lo, hi = 0, 255
+        else:
+            continue            # a selector (bit number, rst vector, im mode): checked through the decoder
+        for v, r, j in items:
+            inside = lo <= v <= hi
+            if inside != r.ok:
+                src = sweeps[j][4]
+                if arch == "6502" and mn in ("adc", "and", "cmp", "eor", "lda", "ora", "sbc", "sta") and f.replace(" ", "").endswith(",y") \
+                        and "(" not in f and not later and 0 <= v <= 255 and not r.ok:
+                    ck.known_hit("6502-absolute-y-with-known-zero-page-address", "`%s` with operand %d" % (f, v))
+                    continue
+                ck.violation("%s: `%s` with operand %d%s is %s although the field's range is %d..%d" % (
+                    arch, f, v, " (defined later)" if later else "", "rejected" if inside else "accepted", lo, hi),
+                    {"mode": "asm", "arch": arch, "source": src, "harness_case": icases[nprog + j], "expected": "OK" if inside else "DIAG"})
+                break
+        if sum(1 for x in ck.violations if not x[2]) >= 6:
+            break
     # ---------------------------------------------------------------- K: model vs implementation
     ksel = list(range(len(allp)))
     if not thorough and len(ksel) > 70000:
